@@ -142,9 +142,9 @@ pub struct Geometry {
 }
 
 pub const WIDTHS: [usize; 5] = [8, 12, 16, 20, 24];
-pub const FAMILIES: [&str; 16] = [
+pub const FAMILIES: [&str; 17] = [
     "silence", "dc", "dcmax", "dcmin", "altfull", "impulse", "step", "ramp", "poly", "sine",
-    "noise_lo", "noise_mid", "noise_full", "cauchy", "riceadv", "thresh",
+    "noise_lo", "noise_mid", "noise_full", "cauchy", "riceadv", "thresh", "nearverb",
 ];
 pub const RELATIONS: [&str; 5] = ["indep", "same", "inverted", "near", "mixed"];
 
@@ -269,6 +269,31 @@ pub fn channel(rng: &mut StdRng, family: &str, bps: usize, n: usize) -> Vec<i32>
             for (t, x) in v.iter_mut().enumerate() {
                 let s = if (t / period) % 2 == 0 { 1 } else { -1 };
                 *x = clampw(s * a + rng.gen_range(-1..=1), bps);
+            }
+        }
+        "nearverb" => {
+            // Threshold-directed: a random walk whose first differences cost exactly (bps - 1) bits
+            // each under the largest Rice parameter, except J of them that cost bps bits.  The coded
+            // size of the order-1 fixed predictor then sits within a few dozen bits of the verbatim
+            // size, in 1-bit steps of J: estimate-based and actual-size-based selection disagree there.
+            if n >= 8 {
+                let k = 14usize.min(bps - 2);
+                let q = (bps - k - 2) as i64; // quotient of the cheap samples (cost q + 1 + k = bps - 1)
+                let mag = |quot: i64, rng: &mut StdRng| -> i64 {
+                    // |e| whose folded value 2|e| (or 2|e| - 1) has the given quotient under parameter k
+                    let lo = (quot << k) / 2 + 1;
+                    let hi = (((quot + 1) << k) - 1) / 2;
+                    rng.gen_range(lo..=hi.max(lo))
+                };
+                let expensive = (n as i64 - 60 + rng.gen_range(0..75)).clamp(0, n as i64 - 1) as usize;
+                let mut x: i64 = 0;
+                v[0] = 0;
+                for t in 1..n {
+                    let m = if t <= expensive { mag(q + 1, rng) } else { mag(q, rng) };
+                    let up = if x + m > hi { false } else if x - m < lo { true } else { rng.gen_bool(0.5) };
+                    x = if up { x + m } else { x - m };
+                    v[t] = clampw(x, bps);
+                }
             }
         }
         _ => panic!("unknown family {family}"),
